@@ -47,7 +47,7 @@ def check_digest(ctx, sd, real, elab):
     return True
 
 
-def gen_cases(ctx, n_schemas, n_texts, handlers=False, nfaults=(0, 0, 1, 1, 2, 3), faults=None, plain=False):
+def gen_cases(ctx, n_schemas, n_texts, handlers=False, nfaults=(0, 0, 1, 1, 2, 3), faults=None, plain=False, systematic=True):
     rng = ctx.rng
     cases = []
     for _ in range(n_schemas):
@@ -69,6 +69,21 @@ def gen_cases(ctx, n_schemas, n_texts, handlers=False, nfaults=(0, 0, 1, 1, 2, 3
             c.overrides = ()
             c.meta = {"items": items}
             cases.append(c)
+        if systematic:
+            # one text per fault kind with exactly that fault (when the schema offers a place for it)
+            for fk in (faults or cfggen.FAULTS):
+                items = cfggen.gen_items(rng, elab, None, 3)
+                f = cfggen.apply_fault(rng, elab, items, fk)
+                if not f:
+                    continue
+                c = Case()
+                c.sd, c.real, c.elab, c.hnames = sd, real, elab, hn
+                c.lines = cfggen.render_lines(rng, items, plain=plain)
+                c.faults = [f]
+                c.overrides = ()
+                c.meta = {"items": items}
+                cases.append(c)
+                ctx.count("systematic:" + fk)
     return cases
 
 
@@ -86,11 +101,21 @@ def _resolve_table(root_url, main_rel, files, all_lines):
     urls = {rel: urllib.parse.urljoin(root_url, urllib.request.pathname2url(rel)) for rel in files}
     urls[main_rel] = urllib.parse.urljoin(root_url, urllib.request.pathname2url(main_rel))
     args = set()
+    defs = {}
+    for ls in all_lines:
+        for l in ls:
+            m = re.match(r"\s*%define\s+(\S+)\s+(.*?)\s*$", l)
+            if m and "$" not in m.group(2):
+                defs.setdefault(m.group(1).lower(), m.group(2))
     for ls in all_lines:
         for l in ls:
             m = re.match(r"\s*%include\s+(\S.*?)\s*$", l)
             if m:
-                args.add(m.group(1))
+                a = m.group(1)
+                if "$" in a:
+                    # the loader resolves the argument AFTER $-substitution: enter the substituted form
+                    a = re.sub(r"\$\{(\w+)\}|\$(\w+)", lambda k: defs.get((k.group(1) or k.group(2)).lower(), k.group(0)), a)
+                args.add(a)
     table = []
     for rel, u in urls.items():
         for a in args:
@@ -132,18 +157,23 @@ def evaluate(ctx, cases, fresh_schema=False, with_spec=False):
                 d = os.path.join(root, "c%d" % i)
                 main_rel = c.meta.get("main", "main.conf")
                 root_url = "file://" + urllib.request.pathname2url(d) + "/"
-                urls, table = _resolve_table(root_url, main_rel, c.files, [c.lines] + list(c.files.values()))
-                for rel, ls in list(c.files.items()) + [(main_rel, c.lines)]:
+
+                def fill(ls, d=d, root_url=root_url):
+                    return [l.replace("@ZCVROOTURL@", root_url.rstrip("/")).replace("@ZCVROOT@", d) for l in ls]
+                c_lines = fill(c.lines)
+                c_files = {rel: fill(ls) for rel, ls in c.files.items()}
+                urls, table = _resolve_table(root_url, main_rel, c_files, [c_lines] + list(c_files.values()))
+                for rel, ls in list(c_files.items()) + [(main_rel, c_lines)]:
                     p = os.path.join(d, rel)
                     os.makedirs(os.path.dirname(p), exist_ok=True)
                     with open(p, "w", encoding="utf-8", newline="") as f:
                         f.write("".join(l + "\n" for l in ls))
                 c.url = urls[main_rel]
-                res = [[urls[rel], ls] for rel, ls in c.files.items()]
-                reqs.append(cfgrun.model_load_request(c.elab, c.lines, c.url, c.overrides, env=ENV,
+                res = [[urls[rel], ls] for rel, ls in c_files.items()]
+                reqs.append(cfgrun.model_load_request(c.elab, c_lines, c.url, c.overrides, env=ENV,
                                                       resources=res, resolve=table))
                 if with_spec:
-                    sreqs.append(cfgrun.spec_load_request(c.elab, c.lines, c.url, resources=res, resolve=table, env=ENV))
+                    sreqs.append(cfgrun.spec_load_request(c.elab, c_lines, c.url, resources=res, resolve=table, env=ENV))
                 plans.append(os.path.join(d, main_rel))
         ans = core.driver_batch(reqs, chunk=5000) if ctx.driver_ok else [None] * len(cases)
         if with_spec and ctx.driver_ok:
